@@ -61,6 +61,25 @@ def query (c : Table) : Sexp → Option Sexp
     some (.list [putOut (RenderMarker c id v), putSpec (specMarker c id v)])
   | _ => none
 
+def devs : List Dev :=
+  [{ padBytes := true }, { zeroEmpty := true }, { absFallback := true }, { extUnknownPlain := true },
+   { padBytes := true, zeroEmpty := true, absFallback := true, extUnknownPlain := true }]
+
+/-- the specification with each known deviation switched on (to name an observed deviation) -/
+def variants (c : Table) : Sexp → Option Sexp
+  | .list [.atom "v", v, .str name] => do
+    let v ← v.asInt?
+    some (.list (devs.map fun d => putSpec (specValueD d c v name)))
+  | .list [.atom "s", v, id] => do
+    let v ← v.asInt?
+    let id ← getCSID id
+    some (.list (devs.map fun d => putSpec (specValueStyleD d c v id)))
+  | .list [.atom "m", v, id] => do
+    let v ← v.asInt?
+    let id ← getCSID id
+    some (.list (devs.map fun d => putSpec (specMarkerD d c id v)))
+  | _ => none
+
 def getPairs (xs : List Sexp) : Option (List (String × Int)) :=
   xs.mapM fun
     | .list [.str n, v] => do some (n, ← v.asInt?)
@@ -103,6 +122,11 @@ def handle (req : Sexp) : Sexp :=
       let c : Table := if (← ua.asBool?) then author ++ WR.Gen.C19Styles.table else author
       let outs ← qs.mapM (query c)
       some (.list (.atom "ok" :: outs))
+    | .list [.atom "variants", .list [.atom "ua", ua], .list (.atom "styles" :: es), .list (.atom "qs" :: qs)] => do
+      let author ← es.mapM getEntry
+      let c : Table := if (← ua.asBool?) then author ++ WR.Gen.C19Styles.table else author
+      let outs ← qs.mapM (variants c)
+      some (.list (.atom "ok" :: outs))
     | .list [.atom "uacheck", .list (.atom "styles" :: es)] => do
       let sent ← es.mapM getEntry
       let gen := WR.Gen.C19Styles.table
@@ -113,7 +137,7 @@ def handle (req : Sexp) : Sexp :=
     | .list [.atom "scope", .list (.atom "names" :: ns), e] => do
       let names ← ns.mapM Sexp.asStr?
       let e ← getElem 4096 e
-      some (.list [.atom "ok", putObsList names (observe e), putObsList names (specObserve e)])
+      some (.list [.atom "ok", putObsList names (observe e), putObsList names (specObserve e), putObsList names (some (specObserveOrd true e))])
     | _ => none
   r.getD (Sexp.err "c19: unknown or malformed request")
 
